@@ -135,8 +135,32 @@ fn id_list(c: &mut Ctx, n: usize, max: usize) -> Vec<usize> {
     v
 }
 
+/// apply one step and produce its trace entry: `(output state)`, or `panic` when the step was
+/// rejected (the history ends there)
+pub fn step_traced(f: &mut Lf, op: &Sx) -> Sx {
+    match step(f, op) {
+        Some(out) => list(vec![out, enc_lf(f)]),
+        None => Sx::S("panic"),
+    }
+}
+
+/// re-run a whole history from `start` (replay mode): the trace `run_edit` records
+pub fn replay_history(start: &RLf, ops: &[Sx]) -> Sx {
+    let mut f = start.to_lf();
+    let mut trace = vec![];
+    for op in ops {
+        let t = step_traced(&mut f, op);
+        let rejected = t == Sx::S("panic");
+        trace.push(t);
+        if rejected {
+            break;
+        }
+    }
+    ok(list(trace))
+}
+
 /// apply one step to the real library; returns the output or None on panic
-fn step(f: &mut Lf, op: &Sx) -> Option<Sx> {
+pub fn step(f: &mut Lf, op: &Sx) -> Option<Sx> {
     let parts = match op {
         Sx::L(v) => v.clone(),
         _ => return None,
@@ -336,13 +360,12 @@ pub fn run_edit(c: &mut Ctx, count: usize, quot_heavy: bool) {
                 _ => list(vec![sym("set_targets"), l(&id_list(c, nn, 3))]),
             };
             ops.push(op.clone());
-            match step(&mut f, &op) {
-                Some(out) => trace.push(list(vec![out, enc_lf(&f)])),
-                None => {
-                    c.knob("edit:history-ends-in-rejection");
-                    trace.push(Sx::S("panic"));
-                    break;
-                }
+            let t = step_traced(&mut f, &op);
+            let rejected = t == Sx::S("panic");
+            trace.push(t);
+            if rejected {
+                c.knob("edit:history-ends-in-rejection");
+                break;
             }
         }
         c.emit("lax.edit", vec![start.enc(), list(ops)], move || ok(list(trace)));
@@ -353,6 +376,124 @@ fn enc_oh(f: &open_hypergraphs::strict::OpenHypergraph<VecKind, usize, usize>) -
     Cv::<VecKind>::roh(f).enc()
 }
 
+// ---- op bodies: the calls into the real library, shared by the generator and the replay mode
+
+pub fn op_from_strict(a: &ROH) -> Sx {
+    ok(enc_lf(&LF::from_strict(Cv::<VecKind>::oh(a))))
+}
+pub fn op_to_strict(a: &RLf) -> Sx {
+    ok(enc_oh(&a.to_lf().to_strict()))
+}
+/// uses the hypergraph part of `a` only
+pub fn op_to_hypergraph(a: &RLf) -> Sx {
+    ok(Cv::<VecKind>::rhg(&a.to_lf().hypergraph.to_hypergraph()).enc())
+}
+pub fn op_identity(a1: Vec<usize>) -> Sx {
+    ok(enc_lf(&Lf::identity(a1)))
+}
+pub fn op_twist(a1: Vec<usize>, b1: Vec<usize>) -> Sx {
+    ok(enc_lf(&<Lf as SymmetricMonoidal>::twist(a1, b1)))
+}
+pub fn op_singleton(x: usize, a1: Vec<usize>, b1: Vec<usize>) -> Sx {
+    ok(enc_lf(&Lf::singleton(x, a1, b1)))
+}
+pub fn op_spider(s1: &RFF, t1: &RFF, w1: Vec<usize>) -> Sx {
+    opt(Lf::spider(Cv::<VecKind>::ff(s1), Cv::<VecKind>::ff(t1), w1).map(|f| enc_lf(&f)))
+}
+pub fn op_tensor(a: &RLf, bb: &RLf) -> Sx {
+    ok(enc_lf(&a.to_lf().tensor(&bb.to_lf())))
+}
+pub fn op_tensor_assign(a: &RLf, bb: &RLf) -> Sx {
+    let mut x = a.to_lf();
+    x.tensor_assign(bb.to_lf());
+    ok(enc_lf(&x))
+}
+pub fn op_append(a: &RLf, bb: &RLf) -> Sx {
+    let mut x = a.to_lf();
+    let (s, t) = x.append(bb.to_lf());
+    ok(list(vec![enc_lf(&x), list(vec![l(&ids(&s)), l(&ids(&t))])]))
+}
+/// uses the hypergraph parts of `a` and `bb` only
+pub fn op_coproduct_assign(a: &RLf, bb: &RLf) -> Sx {
+    let mut x = a.to_lf().hypergraph;
+    x.coproduct_assign(bb.to_lf().hypergraph);
+    ok(enc_lh(&x))
+}
+pub fn op_compose(a: &RLf, bb: &RLf) -> Sx {
+    opt(a.to_lf().compose(&bb.to_lf()).map(|r| enc_lf(&r)))
+}
+pub fn op_lax_compose(a: &RLf, bb: &RLf) -> Sx {
+    opt(a.to_lf().lax_compose(&bb.to_lf()).map(|r| enc_lf(&r)))
+}
+/// JSON (serde feature): documented field names, round trip
+pub fn op_json(a: &RLf) -> Sx {
+    let x = a.to_lf();
+    let v = serde_json::to_value(&x).unwrap();
+    let text = serde_json::to_string(&v).unwrap();
+    let back: Lf = serde_json::from_str(&serde_json::to_string(&x).unwrap()).unwrap();
+    ok(list(vec![Sx::Str(text), b(back == x)]))
+}
+pub fn op_dagger(a: &RLf) -> Sx {
+    ok(enc_lf(&a.to_lf().dagger()))
+}
+pub fn op_source(a: &RLf) -> Sx {
+    ok(l(&a.to_lf().source()))
+}
+pub fn op_target(a: &RLf) -> Sx {
+    ok(l(&a.to_lf().target()))
+}
+
+type Soh = open_hypergraphs::strict::OpenHypergraph<VecKind, usize, usize>;
+fn pair(a: &Soh, b: &Soh) -> Sx {
+    ok(list(vec![enc_oh(a), enc_oh(b)]))
+}
+pub fn law_to_from_strict(a: &ROH) -> Sx {
+    let s = Cv::<VecKind>::oh(a);
+    pair(&LF::from_strict(s.clone()).to_strict(), &s)
+}
+pub fn law_from_to_strict(a: &RLf) -> Sx {
+    let x = a.to_lf();
+    let y = LF::from_strict(x.clone().to_strict());
+    ok(list(vec![enc_lf(&y), enc_lf(&x)]))
+}
+pub fn law_strict_compose(a: &RLf, bb: &RLf) -> Sx {
+    let (x, y) = (a.to_lf(), bb.to_lf());
+    let lhs = x.compose(&y).unwrap().to_strict();
+    let rhs = x.to_strict().compose(&y.to_strict()).unwrap();
+    pair(&lhs, &rhs)
+}
+pub fn law_strict_tensor(a: &RLf, bb: &RLf) -> Sx {
+    let (x, y) = (a.to_lf(), bb.to_lf());
+    pair(&x.tensor(&y).to_strict(), &x.to_strict().tensor(&y.to_strict()))
+}
+/// lax spider fusion against the strict composite of the same two spiders
+pub fn law_lax_spider_fusion(s1: &RFF, t1: &RFF, w1: &Vec<usize>, s2: &RFF, t2: &RFF, w2: &Vec<usize>) -> Sx {
+    use open_hypergraphs::strict::OpenHypergraph as SOH;
+    let a = Lf::spider(Cv::<VecKind>::ff(s1), Cv::<VecKind>::ff(t1), w1.clone()).unwrap();
+    let bb = Lf::spider(Cv::<VecKind>::ff(s2), Cv::<VecKind>::ff(t2), w2.clone()).unwrap();
+    let lhs = a.compose(&bb).unwrap().to_strict();
+    let sa = SOH::<VecKind, usize, usize>::spider(Cv::<VecKind>::ff(s1), Cv::<VecKind>::ff(t1), Cv::<VecKind>::sf(w1)).unwrap();
+    let sb = SOH::<VecKind, usize, usize>::spider(Cv::<VecKind>::ff(s2), Cv::<VecKind>::ff(t2), Cv::<VecKind>::sf(w2)).unwrap();
+    let rhs = sa.compose(&sb).unwrap();
+    pair(&lhs, &rhs)
+}
+pub fn law_strict_dagger(a: &RLf) -> Sx {
+    let x = a.to_lf();
+    pair(&x.dagger().to_strict(), &x.to_strict().dagger())
+}
+pub fn law_strict_identity(a1: &Vec<usize>) -> Sx {
+    use open_hypergraphs::strict::OpenHypergraph as SOH;
+    pair(&Lf::identity(a1.clone()).to_strict(), &SOH::identity(Cv::<VecKind>::sf(a1)))
+}
+pub fn law_strict_twist(a1: &Vec<usize>, b1: &Vec<usize>) -> Sx {
+    use open_hypergraphs::strict::OpenHypergraph as SOH;
+    pair(&<Lf as SymmetricMonoidal>::twist(a1.clone(), b1.clone()).to_strict(), &SOH::twist(Cv::<VecKind>::sf(a1), Cv::<VecKind>::sf(b1)))
+}
+pub fn law_strict_singleton(x: usize, a1: &Vec<usize>, b1: &Vec<usize>) -> Sx {
+    use open_hypergraphs::strict::OpenHypergraph as SOH;
+    pair(&Lf::singleton(x, a1.clone(), b1.clone()).to_strict(), &SOH::singleton(x, Cv::<VecKind>::sf(a1), Cv::<VecKind>::sf(b1)))
+}
+
 pub fn run_cat(c: &mut Ctx, count: usize) {
     let p = gen::hg_params(c.size.max(2));
     for _ in 0..count {
@@ -360,7 +501,7 @@ pub fn run_cat(c: &mut Ctx, count: usize) {
             0 | 1 => {
                 let f = gen::oh(&mut c.rng, &p);
                 let a = f.clone();
-                c.emit("lax.from_strict", vec![f.enc()], move || ok(enc_lf(&LF::from_strict(Cv::<VecKind>::oh(&a)))));
+                c.emit("lax.from_strict", vec![f.enc()], move || op_from_strict(&a));
             }
             2 | 3 | 4 => {
                 let pending = c.rng.chance(2, 3);
@@ -370,22 +511,20 @@ pub fn run_cat(c: &mut Ctx, count: usize) {
                     c.knob("cat:to_strict-with-pending-unifications");
                 }
                 let a = f.clone();
-                c.emit("lax.to_strict", vec![f.enc()], move || ok(enc_oh(&a.to_lf().to_strict())));
+                c.emit("lax.to_strict", vec![f.enc()], move || op_to_strict(&a));
                 let a = f.clone();
-                c.emit("lax.to_hypergraph", vec![enc_lh(&f.to_lf().hypergraph)], move || {
-                    ok(Cv::<VecKind>::rhg(&a.to_lf().hypergraph.to_hypergraph()).enc())
-                });
+                c.emit("lax.to_hypergraph", vec![enc_lh(&f.to_lf().hypergraph)], move || op_to_hypergraph(&a));
             }
             5 => {
                 let a = gen::list_below(&mut c.rng, 4, 3);
                 let a1 = a.clone();
-                c.emit("lax.identity", vec![l(&a)], move || ok(enc_lf(&Lf::identity(a1))));
+                c.emit("lax.identity", vec![l(&a)], move || op_identity(a1));
                 let bb = gen::list_below(&mut c.rng, 4, 3);
                 let (a1, b1) = (a.clone(), bb.clone());
-                c.emit("lax.twist", vec![l(&a), l(&bb)], move || ok(enc_lf(&<Lf as SymmetricMonoidal>::twist(a1, b1))));
+                c.emit("lax.twist", vec![l(&a), l(&bb)], move || op_twist(a1, b1));
                 let x = c.rng.below(4);
                 let (a1, b1) = (a.clone(), bb.clone());
-                c.emit("lax.singleton", vec![n(x), l(&a), l(&bb)], move || ok(enc_lf(&Lf::singleton(x, a1, b1))));
+                c.emit("lax.singleton", vec![n(x), l(&a), l(&bb)], move || op_singleton(x, a1, b1));
             }
             6 => {
                 let w = gen::list_below(&mut c.rng, 4, 3);
@@ -397,33 +536,19 @@ pub fn run_cat(c: &mut Ctx, count: usize) {
                     _ => {}
                 }
                 let (s1, t1, w1) = (s.clone(), t.clone(), w.clone());
-                c.emit("lax.spider", vec![s.enc(), t.enc(), l(&w)], move || {
-                    opt(Lf::spider(Cv::<VecKind>::ff(&s1), Cv::<VecKind>::ff(&t1), w1).map(|f| enc_lf(&f)))
-                });
+                c.emit("lax.spider", vec![s.enc(), t.enc(), l(&w)], move || op_spider(&s1, &t1, w1));
             }
             7 | 8 => {
                 let f = { let p_ = c.rng.chance(1, 2); gen_lf(c, p_, true) };
                 let g = { let p_ = c.rng.chance(1, 2); gen_lf(c, p_, true) };
                 let (a, bb) = (f.clone(), g.clone());
-                c.emit("lax.tensor", vec![f.enc(), g.enc()], move || ok(enc_lf(&a.to_lf().tensor(&bb.to_lf()))));
+                c.emit("lax.tensor", vec![f.enc(), g.enc()], move || op_tensor(&a, &bb));
                 let (a, bb) = (f.clone(), g.clone());
-                c.emit("lax.tensor_assign", vec![f.enc(), g.enc()], move || {
-                    let mut x = a.to_lf();
-                    x.tensor_assign(bb.to_lf());
-                    ok(enc_lf(&x))
-                });
+                c.emit("lax.tensor_assign", vec![f.enc(), g.enc()], move || op_tensor_assign(&a, &bb));
                 let (a, bb) = (f.clone(), g.clone());
-                c.emit("lax.append", vec![f.enc(), g.enc()], move || {
-                    let mut x = a.to_lf();
-                    let (s, t) = x.append(bb.to_lf());
-                    ok(list(vec![enc_lf(&x), list(vec![l(&ids(&s)), l(&ids(&t))])]))
-                });
+                c.emit("lax.append", vec![f.enc(), g.enc()], move || op_append(&a, &bb));
                 let (a, bb) = (f.clone(), g.clone());
-                c.emit("lax.coproduct_assign", vec![enc_lh(&f.to_lf().hypergraph), enc_lh(&g.to_lf().hypergraph)], move || {
-                    let mut x = a.to_lf().hypergraph;
-                    x.coproduct_assign(bb.to_lf().hypergraph);
-                    ok(enc_lh(&x))
-                });
+                c.emit("lax.coproduct_assign", vec![enc_lh(&f.to_lf().hypergraph), enc_lh(&g.to_lf().hypergraph)], move || op_coproduct_assign(&a, &bb));
             }
             9 | 10 | 11 => {
                 let f = { let p_ = c.rng.chance(1, 2); gen_lf(c, p_, true) };
@@ -435,30 +560,24 @@ pub fn run_cat(c: &mut Ctx, count: usize) {
                     _ => { let p_ = c.rng.chance(1, 2); gen_lf_with_source(c, &f.ty().1, p_) },
                 };
                 let (a, bb) = (f.clone(), g.clone());
-                c.emit("lax.compose", vec![f.enc(), g.enc()], move || opt(a.to_lf().compose(&bb.to_lf()).map(|r| enc_lf(&r))));
+                c.emit("lax.compose", vec![f.enc(), g.enc()], move || op_compose(&a, &bb));
                 let (a, bb) = (f.clone(), g.clone());
-                c.emit("lax.lax_compose", vec![f.enc(), g.enc()], move || opt(a.to_lf().lax_compose(&bb.to_lf()).map(|r| enc_lf(&r))));
+                c.emit("lax.lax_compose", vec![f.enc(), g.enc()], move || op_lax_compose(&a, &bb));
             }
             15 => {
                 // JSON (serde feature): documented field names, round trip
                 let f = { let p_ = c.rng.chance(1, 2); gen_lf(c, p_, true) };
                 let a = f.clone();
-                c.emit("lax.json", vec![f.enc()], move || {
-                    let x = a.to_lf();
-                    let v = serde_json::to_value(&x).unwrap();
-                    let text = serde_json::to_string(&v).unwrap();
-                    let back: Lf = serde_json::from_str(&serde_json::to_string(&x).unwrap()).unwrap();
-                    ok(list(vec![Sx::Str(text), b(back == x)]))
-                });
+                c.emit("lax.json", vec![f.enc()], move || op_json(&a));
             }
             _ => {
                 let f = { let p_ = c.rng.chance(1, 2); gen_lf(c, p_, true) };
                 let a = f.clone();
-                c.emit("lax.dagger", vec![f.enc()], move || ok(enc_lf(&a.to_lf().dagger())));
+                c.emit("lax.dagger", vec![f.enc()], move || op_dagger(&a));
                 let a = f.clone();
-                c.emit("lax.source", vec![f.enc()], move || ok(l(&a.to_lf().source())));
+                c.emit("lax.source", vec![f.enc()], move || op_source(&a));
                 let a = f.clone();
-                c.emit("lax.target", vec![f.enc()], move || ok(l(&a.to_lf().target())));
+                c.emit("lax.target", vec![f.enc()], move || op_target(&a));
             }
         }
     }
@@ -467,75 +586,71 @@ pub fn run_cat(c: &mut Ctx, count: usize) {
 /// laws relating the lax and strict representations (C10) evaluated on the implementation
 pub fn run_lawlax(c: &mut Ctx, count: usize) {
     let p = gen::hg_params(c.size.max(2));
-    let pair = |a: &open_hypergraphs::strict::OpenHypergraph<VecKind, usize, usize>, b: &open_hypergraphs::strict::OpenHypergraph<VecKind, usize, usize>| {
-        ok(list(vec![enc_oh(a), enc_oh(b)]))
-    };
     for _ in 0..count {
         match c.rng.below(8) {
             0 => {
                 let f = gen::oh(&mut c.rng, &p);
                 let a = f.clone();
-                c.emit("law.to_from_strict:eq", vec![f.enc()], move || {
-                    let s = Cv::<VecKind>::oh(&a);
-                    pair(&LF::from_strict(s.clone()).to_strict(), &s)
-                });
+                c.emit("law.to_from_strict:eq", vec![f.enc()], move || law_to_from_strict(&a));
             }
             1 => {
                 let f = gen_lf(c, false, true);
                 let a = f.clone();
-                c.emit("law.from_to_strict:lax-eq", vec![f.enc()], move || {
-                    let x = a.to_lf();
-                    let y = LF::from_strict(x.clone().to_strict());
-                    ok(list(vec![enc_lf(&y), enc_lf(&x)]))
-                });
+                c.emit("law.from_to_strict:lax-eq", vec![f.enc()], move || law_from_to_strict(&a));
             }
             2 | 3 | 4 => {
                 let f = { let p_ = c.rng.chance(1, 2); gen_lf(c, p_, true) };
                 let g = { let p_ = c.rng.chance(1, 2); gen_lf_with_source(c, &f.ty().1, p_) };
                 let (a, bb) = (f.clone(), g.clone());
-                c.emit("law.strict_compose", vec![f.enc(), g.enc()], move || {
-                    let (x, y) = (a.to_lf(), bb.to_lf());
-                    let lhs = x.compose(&y).unwrap().to_strict();
-                    let rhs = x.to_strict().compose(&y.to_strict()).unwrap();
-                    pair(&lhs, &rhs)
-                });
+                c.emit("law.strict_compose", vec![f.enc(), g.enc()], move || law_strict_compose(&a, &bb));
             }
             5 => {
                 let f = { let p_ = c.rng.chance(1, 2); gen_lf(c, p_, true) };
                 let g = { let p_ = c.rng.chance(1, 2); gen_lf(c, p_, true) };
                 let (a, bb) = (f.clone(), g.clone());
-                c.emit("law.strict_tensor", vec![f.enc(), g.enc()], move || {
-                    let (x, y) = (a.to_lf(), bb.to_lf());
-                    pair(&x.tensor(&y).to_strict(), &x.to_strict().tensor(&y.to_strict()))
-                });
+                c.emit("law.strict_tensor", vec![f.enc(), g.enc()], move || law_strict_tensor(&a, &bb));
+            }
+            6 if c.rng.chance(1, 2) => {
+                // lax spider fusion: both glued legs non-injective now and then
+                let uniform = c.rng.chance(1, 2);
+                let w = if uniform { vec![0; c.rng.range(1, 3)] } else { gen::list_below(&mut c.rng, 4, 2) };
+                let s = gen::ff_to(&mut c.rng, 3, w.len());
+                let t = if uniform {
+                    // both glued legs non-injective with interleaved repeats (e.g. [0,1,0] against [0,1,1])
+                    c.knob("law:fusion-both-legs-non-injective");
+                    let k = c.rng.range(2, 5);
+                    RFF::new(c.rng.vec_below(k, w.len()), w.len())
+                } else {
+                    gen::ff_to(&mut c.rng, 4, w.len())
+                };
+                let bty: Vec<usize> = t.table.iter().map(|i| w[*i]).collect();
+                let sp2 = if uniform {
+                    let n2 = c.rng.range(1, 3);
+                    let s2 = RFF::new(c.rng.vec_below(bty.len(), n2), n2);
+                    let t2 = gen::ff_to(&mut c.rng, 3, n2);
+                    ROH { s: s2, t: t2, h: RHG { s: RICF::from_segs(&[], n2), t: RICF::from_segs(&[], n2), w: vec![0; n2], x: vec![] } }
+                } else {
+                    gen::cospan_with_source(&mut c.rng, &bty, &p)
+                };
+                let args = vec![s.enc(), t.enc(), l(&w), sp2.s.enc(), sp2.t.enc(), l(&sp2.h.w)];
+                let (s1, t1, w1, q) = (s.clone(), t.clone(), w.clone(), sp2.clone());
+                c.emit("law.lax_spider_fusion", args, move || law_lax_spider_fusion(&s1, &t1, &w1, &q.s, &q.t, &q.h.w));
             }
             6 => {
                 let f = { let p_ = c.rng.chance(1, 2); gen_lf(c, p_, true) };
                 let a = f.clone();
-                c.emit("law.strict_dagger", vec![f.enc()], move || {
-                    let x = a.to_lf();
-                    pair(&x.dagger().to_strict(), &x.to_strict().dagger())
-                });
+                c.emit("law.strict_dagger", vec![f.enc()], move || law_strict_dagger(&a));
             }
             _ => {
                 let a = gen::list_below(&mut c.rng, 4, 3);
                 let bb = gen::list_below(&mut c.rng, 4, 3);
                 let a1 = a.clone();
-                c.emit("law.strict_identity", vec![l(&a)], move || {
-                    use open_hypergraphs::strict::OpenHypergraph as SOH;
-                    pair(&Lf::identity(a1.clone()).to_strict(), &SOH::identity(Cv::<VecKind>::sf(&a1)))
-                });
+                c.emit("law.strict_identity", vec![l(&a)], move || law_strict_identity(&a1));
                 let (a1, b1) = (a.clone(), bb.clone());
-                c.emit("law.strict_twist", vec![l(&a), l(&bb)], move || {
-                    use open_hypergraphs::strict::OpenHypergraph as SOH;
-                    pair(&<Lf as SymmetricMonoidal>::twist(a1.clone(), b1.clone()).to_strict(), &SOH::twist(Cv::<VecKind>::sf(&a1), Cv::<VecKind>::sf(&b1)))
-                });
+                c.emit("law.strict_twist", vec![l(&a), l(&bb)], move || law_strict_twist(&a1, &b1));
                 let x = c.rng.below(4);
                 let (a1, b1) = (a.clone(), bb.clone());
-                c.emit("law.strict_singleton", vec![n(x), l(&a), l(&bb)], move || {
-                    use open_hypergraphs::strict::OpenHypergraph as SOH;
-                    pair(&Lf::singleton(x, a1.clone(), b1.clone()).to_strict(), &SOH::singleton(x, Cv::<VecKind>::sf(&a1), Cv::<VecKind>::sf(&b1)))
-                });
+                c.emit("law.strict_singleton", vec![n(x), l(&a), l(&bb)], move || law_strict_singleton(x, &a1, &b1));
             }
         }
     }
